@@ -207,6 +207,19 @@ CLAIMED = {
         "the search only. Finding F-C19-1 (rdflib relabels blank nodes per parse). Two defects repaired.",
    technique="Lean 4 proof (reader agreement, concatenation, permutation invariance) + differential correspondence + cross-channel search",
    design="5/C08"),
+ "C15": dict(
+   text="Proof: EndpointSGraph as three kinds of request over a served set of triples, the per-node cache as a state machine, and the depth-1 "
+        "neighbourhood fetch. Theorems: for every disciplined run of requests each cached answer has exactly the endpoint's rows (so "
+        "disable_endpoint_cache cannot change a result); the cached run never sends more queries than the uncached one (every run), a repeated "
+        "request costs nothing; the fetch's own requests are disciplined (a kernel-checked witness shows an undisciplined run does return a "
+        "truncated neighbourhood); for a selection among the target nodes every count computed from the fetched triples equals the count "
+        "computed from the whole graph, in both directions (hence every figure, by R1). Tie: the model's request list and query count vs the "
+        "implementation's query log, cache on and off. Search: endpoint run (cache on / off) vs local run of the same graph on an in-process "
+        "SPARQL evaluator substituted for the HTTP client; class targets, all classes, shape maps, inverse paths, instances_cap.",
+   note="Partial: the SPARQL JSON result reader (keeps no datatype), HTTP and retries are runtime behaviour outside the model; the fake endpoint "
+        "replaces only the HTTP call. Findings F-C15-1 (same local name), F-C02-2 / F-C09-1 (order-dependent ties). Two defects repaired.",
+   technique="Lean 4 proof (cache refinement with invariant; neighbourhood sufficiency via permutation invariance) + query-log correspondence + endpoint-vs-local search",
+   design="5/C15"),
 }
 PENDING_REASON = "check not built yet (work in progress; see DESIGN.md section 9 for the build order)"
 
